@@ -316,6 +316,18 @@ func evaluateNotPresent(ptr pointerstructure.Pointer, datum interface{}) bool {
 //
 // `key` has no equivalent JSON Pointer. In that case we kept track of the the
 // concrete value instead of the path and we return it directly.
+// safeGet is ptr.Get with a panic raised inside the walk returned as an error:
+// the libraries that resolve a path part against a map compare the decoded key
+// with ==, which panics for a few exotic key types (e.g. map[*[1][]int]T).
+func safeGet(ptr pointerstructure.Pointer, datum interface{}) (val interface{}, err error) {
+	defer func() {
+		if r := recover(); r != nil {
+			val, err = nil, fmt.Errorf("%s: %v", ptr.String(), r)
+		}
+	}()
+	return ptr.Get(datum)
+}
+
 func getValue(datum interface{}, path []string, opt ...Option) (interface{}, bool, error) {
 	opts := getOpts(opt...)
 	if len(path) != 0 && len(opts.withLocalVariables) > 0 {
@@ -352,7 +364,7 @@ func getValue(datum interface{}, path []string, opt ...Option) (interface{}, boo
 			ValueTransformationHook: opts.withHookFn,
 		},
 	}
-	val, err := ptr.Get(datum)
+	val, err := safeGet(ptr, datum)
 	if err != nil {
 		if errors.Is(err, pointerstructure.ErrNotFound) {
 			// Prefer the withUnknown option if set, otherwise defer to NotPresent
